@@ -167,8 +167,18 @@ def gen_spec(seed, size_class):
         "observed": nrng.integers(1, 4000, n) / 8.0,
         "ghi": nrng.integers(0, 8000, n) / 8.0,
     }
-    if rng.random() < 0.1:
-        vals["observed"] = -vals["observed"] if not elec else vals["observed"]    # negative gas readings are values too
+    # usage profiles, for electricity and gas alike: the zero rule is `== 0` exactly, so negative readings (a net-metered
+    # site exporting to the grid), readings crossing zero and tiny non-zero readings of either sign are values
+    profile = rng.choices(["positive", "net_metered", "negative", "tiny", "around_zero"], [45, 25, 8, 8, 14])[0]
+    if profile == "net_metered":
+        hour = np.arange(n) % 24
+        vals["observed"] = (nrng.integers(-400, 1200, n) - 1500 * ((hour >= 9) & (hour <= 15))) / 8.0
+    elif profile == "negative":
+        vals["observed"] = -vals["observed"]
+    elif profile == "tiny":
+        vals["observed"] = nrng.choice(np.array([5e-324, -5e-324, 2.0 ** -40, -(2.0 ** -40), 1e-12, -1e-12, 1e-300, -1e-300, 0.125, -0.125]), n)
+    elif profile == "around_zero":
+        vals["observed"] = nrng.integers(-3, 4, n) / 8.0          # -0.375 .. 0.375, exact zeros included
 
     def holes(col):
         v = vals[col]
@@ -211,7 +221,7 @@ def gen_spec(seed, size_class):
         rows.append([hs[i]] + [None if math.isnan(vals[c][i]) else float(vals[c][i]) for c in COLS])
     for _ in range(rng.choice([0, 0, 1, 3, 10])):
         src = rows[rng.randrange(len(rows))]
-        dup = [src[0]] + [rng.choice([None, 0.0, rng.randrange(1, 4000) / 8.0, v]) for v in src[1:]]
+        dup = [src[0]] + [rng.choice([None, 0.0, rng.randrange(1, 4000) / 8.0, -rng.randrange(1, 4000) / 8.0, v]) for v in src[1:]]
         where = rng.choice(["after", "end", "any", "start"])
         if where == "after":
             rows.insert(rows.index(src) + 1, dup)
@@ -230,7 +240,8 @@ def gen_spec(seed, size_class):
         for r in rows:
             r[2] = None
     return {"zone": z, "elec": elec, "klass": klass, "has_ghi": has_ghi, "has_obs": has_obs,
-            "as_column": rng.random() < 0.15, "stream": stream, "size_class": size_class, "seed": seed, "rows": rows}
+            "as_column": rng.random() < 0.15, "stream": stream, "size_class": size_class, "seed": seed, "usage": profile,
+            "rows": rows}
 
 
 # ------------------------------------------------------------------ implementation adapter
@@ -524,7 +535,7 @@ def coq_def(name, spec, obs):
 # ------------------------------------------------------------------ one case, in a worker
 
 def spec_summary(spec):
-    return {k: spec[k] for k in ("zone", "elec", "klass", "has_ghi", "has_obs", "as_column", "stream", "size_class", "seed")
+    return {k: spec[k] for k in ("zone", "elec", "klass", "has_ghi", "has_obs", "as_column", "stream", "size_class", "seed", "usage")
             if k in spec} | {"n_input_rows": len(spec["rows"])}
 
 
@@ -540,6 +551,7 @@ def work(item):
     res["dup_rows"] = len(spec["rows"]) - len(stamps)
     res["nan_cells"] = sum(1 for r in spec["rows"] for v in r[1:] if v is None)
     res["zeros"] = sum(1 for r in spec["rows"] if r[2] == 0)
+    res["negatives"] = sum(1 for r in spec["rows"] if r[2] is not None and r[2] < 0)
     if obs["kind"] == "ok" and obs["ts"] is not None and all(obs["val"][c] is not None or (c == "ghi") for c in COLS):
         res["text"], res["mode"] = coq_def("k_%d" % idx, spec, obs)
         if res["text"] is None:
@@ -631,7 +643,7 @@ def main():
         "401-731 days; random first/last hour; 18 whole-hour zones (5 switching at local midnight) + 3 zones with fractional-hour "
         "shifts; 24% of the frames start or end next to a clock change; per column NaN cells (density 0-0.6), NaN runs of 1-800, "
         "leading / trailing runs, empty columns; absent rows and runs of absent rows; 0-10 duplicated stamps with other values at "
-        "any position; shuffled order; zeros / -0.0 in usage; +-ghi; electricity / gas; baseline / reporting class (with and "
+        "any position; shuffled order; usage profiles for electricity and gas alike: positive, net-metered (crossing zero), all negative, tiny non-zero values of either sign (down to 5e-324), values around zero; exact zeros / -0.0 in usage; +-ghi; electricity / gas; baseline / reporting class (with and "
         "without observed); index or datetime column. distinct = hash of the input rows; non-trivial = the frame was returned "
         "and at least one cell had to be filled or a row added")
     run.assumptions += [
@@ -707,6 +719,8 @@ def process(run, items, nproc):
         run.dist("model_mode", res["mode"])
         run.dist("duplicated_stamps", min(res["dup_rows"], 10))
         run.dist("zeros_in_usage", "0" if not res["zeros"] else "some")
+        run.dist("usage_profile", "%s/%s" % ("electricity" if s["elec"] else "gas", s.get("usage")))
+        run.dist("negative_usage_rows", "0" if not res.get("negatives") else "some")
         for sig, msg in res["fails"]:
             run.violation(sig, "C17: %s [%s, %s]" % (msg, s["zone"], s["klass"]), case={"spec": regenerate(res)},
                           observation={"n_rows": res["n_out"], "first_stamp": res.get("lo")}, generator="c17.gen_spec")
